@@ -23,15 +23,28 @@ def corpus():
         "scn 1 _/r1.r2.r3.r4 c1=N;c2=Pv;c3=F;c4=Q",       # every cleanup misbehaves; all four must run
         "scn 2 r1/r1.r1 c1=r1.L5",                         # a cleanup registering a cleanup
         "scn 0 r1.r2/_ c1=L1;c2=F",
+        # whole runs: teardown placement under the endings of Run.Do
+        "run prop=C06 mode=constant rate=2/100ms dur=1500 conc=8 body=600 timeout=1000 setupcleanups=3",   # longer than the completion timeout
+        "run prop=C06 mode=constant rate=3/100ms dur=500 conc=4 body=30 cancel=200",
+        "run prop=C06 mode=constant rate=3/100ms dur=500 conc=4 setupfail=2",
+        "run prop=C06 mode=users conc=3 dur=300 body=20 maxit=10",
     ]
 
 
 def generate(rng, tier):
     n = {"quick": 1500, "thorough": 40000, "search": 20000}[tier]
-    return [_scn.case(rng) for _ in range(n)]
+    out = [_scn.case(rng) for _ in range(n)]
+    for _ in range({"quick": 4, "thorough": 60, "search": 10}[tier]):
+        end = rng.choice(["", " cancel=%d" % rng.randint(50, 400), " maxit=%d" % rng.randint(1, 9), " setupfail=%d" % rng.choice([1, 2])])
+        mode = rng.choice(["mode=constant rate=%d/100ms" % rng.randint(1, 5), "mode=users", "mode=file file=c:200:3/100ms;u:150:2"])
+        out.append("run prop=C06 %s dur=%d conc=%d body=%d setupcleanups=%d%s" % (
+            mode, rng.choice([300, 500]) if "file" not in mode else 3000, rng.choice([1, 4]), rng.choice([0, 20, 120]), rng.randint(0, 4), end))
+    return out
 
 
 def nontrivial_key(rec):
+    if rec["case"].startswith("run "):
+        return rec["case"]
     f = _scn.features(rec["case"]) if rec["case"].startswith("scn ") else {"x"}
     if f & {"body_registers_2plus", "body_stops", "setup_stops", "cleanup_stops", "setup_registers"}:
         return rec["case"]
